@@ -934,7 +934,8 @@ impl<'ast> LoweringContext<'ast> {
                         "Callback arguments are not supported by this backend".into(),
                     ));
                 }
-                if in_struct {
+                // Struct fields are lowered in the `Everywhere` position, which cannot hold callbacks
+                if in_struct || !matches!(P::IN_OUT_STATUS, super::InputOrOutput::Input) {
                     self.errors.push(LoweringError::Other(
                         "Callbacks currently unsupported in structs".into(),
                     ));
